@@ -293,6 +293,83 @@ def try_success_edge(fn, call_term):
     return None
 
 
+def result_edges(fn, call_term):
+    """Where the Result/Option returned by `call_term` is decided: (switch block, success target, failure target), whether the
+    decision is spelled `?`, `match`, `if let`, or `if x.is_err()` / `is_ok()` / `is_some()` / `is_none()`.  None if undecided."""
+    e = try_success_edge(fn, call_term)
+    if e:
+        return e
+    if len(call_term["dest"]) != 1:
+        return None
+    als = forward_aliases(fn, call_term["dest"][0])
+    for bi, b in enumerate(fn.blocks):
+        if b.get("cleanup"):
+            continue
+        bs = bool_switch(fn, bi)
+        if not bs or bs[0][0] != "call":
+            continue
+        t = bs[0][1]
+        m = re.search(r"::(is_ok|is_err|is_some|is_none)$", t["f"].get("name") or "")
+        if not m or not t["args"] or t["args"][0][0] == "k":
+            continue
+        o = fn.origin(t["args"][0])
+        hit = (o[0] == "call" and o[1] is call_term) or (t["args"][0][1][0] in als)
+        if not hit:
+            # `x.is_err()` takes `&x`: a reference local whose referent is the call's destination
+            sd = fn.single_def(t["args"][0][1][0])
+            hit = sd is not None and sd[2][0] == "ref" and sd[2][2][0] in als
+        if hit:
+            if m.group(1) in ("is_ok", "is_some"):
+                return bi, bs[1], bs[2]
+            return bi, bs[2], bs[1]
+    return None
+
+
+def used_after_failure(fn, check_term, use_blocks):
+    """Does the failure edge of the Result/Option returned by `check_term` still reach one of `use_blocks`?
+    True / False, or None when the result is never decided."""
+    e = result_edges(fn, check_term)
+    if e is None:
+        return None
+    reach = fn.reachable(e[2])
+    return any(b in reach for b in use_blocks)
+
+
+def leaf_calls(fn, operand, limit=40):
+    """names of all calls the operand's value is computed from, following every argument of every call on the way back
+    (an over-approximation of "derives from"; loop-carried iterators are followed through their single definition)"""
+    names, seen, todo = [], set(), [operand]
+    while todo and len(seen) < limit:
+        op = todo.pop()
+        if op is None or op[0] == "k":
+            continue
+        key = repr(op[1])
+        if key in seen:
+            continue
+        seen.add(key)
+        o = fn.origin(op)
+        if o[0] == "place" and o[1]:
+            sd = fn.single_def(o[1][0])
+            if sd is not None and sd[2][0] == "call":
+                o = ("call", sd[2][1], sd[0])
+            elif sd is not None and sd[2][0] in ("ref", "rawptr"):
+                todo.append(["m", list(sd[2][2])])
+                continue
+            elif sd is not None and sd[2][0] == "use":
+                todo.append(sd[2][1])
+                continue
+        if o[0] == "call":
+            names.append(o[1]["f"].get("name") or "?")
+            todo.extend(o[1]["args"])
+        elif o[0] == "agg":
+            todo.extend(o[2])
+        elif o[0] == "param":
+            names.append("param:%d%s" % (o[1], "".join("." + str(x) for x in o[2])))
+        elif o[0] == "rvalue" and o[1][0] in ("ref", "rawptr"):
+            todo.append(["m", list(o[1][2])])
+    return names
+
+
 # --------------------------------------------------------------------------- value provenance through transparent calls
 
 TRANSPARENT = (r"ops::Deref::deref$", r"ops::deref::Deref::deref$", r"borrow::Borrow::borrow$", r"convert::AsRef::as_ref$",
